@@ -15,7 +15,7 @@ CHECKS = {
              "every length 0..Nmax-n, finalize} is explored to closure for each configuration of a "
              "lattice (all 1<=S<=L<=8, 3 frame styles, 2 windows, padded/unpadded; SI banks x shifts "
              "1..6 x styles); every transition runs the real method and is compared with compute_full "
-             "of a fresh instance, so all 2^(Nmax-1) chunkings of every prefix are covered, not sampled. Added after seeded changes: every composition on ONE live computer with all outputs held until after finalize, and every interleaving of the calls of TWO live computers (schedule enumeration; snapshots would hide shared buffers).",
+             "of a fresh instance, so all 2^(Nmax-1) chunkings of every prefix are covered, not sampled. Added after seeded changes: every composition on ONE live computer with all outputs held until after finalize, and every interleaving of the calls of TWO live computers (schedule enumeration; snapshots would hide shared buffers). Wave 4: sub-check transport - every composition through one live computer with chunks in non-native byte order / strided / negative-stride / in one caller buffer overwritten after each call, and with the computer deep-copied or pickled before every call and before exactly one call at every position.",
         note="Sample values are one generic signal per configuration; compute_full is the reference "
              "(its own definition is C02/C03); merging validated by poisoning and an unmerged cross-check.",
         design="3/C01"),
@@ -27,7 +27,7 @@ CHECKS = {
              "Nyquist x L 2..12 x S x padded/unpadded (every DFT size 2..12,16, all residues mod 4) x 3 "
              "frame styles x 2 windows x log/power/energy x 6 lengths around the frame boundaries) is "
              "enumerated completely and each point compared with an independent reference (full complex "
-             "DFT, explicit reflection map, responses rebuilt by the docstring recipe). Also construction histories: every ordered pair/triple of computers built on ONE bank instance, evaluated after all were built; data alphabet incl. loud-then-quiet, outlier, tiny, strided and negative-stride views; realistic 25/10 ms geometry.",
+             "DFT, explicit reflection map, responses rebuilt by the docstring recipe). Also construction histories: every ordered pair/triple of computers built on ONE bank instance, evaluated after all were built; data alphabet incl. loud-then-quiet, outlier, tiny, strided and negative-stride views; realistic 25/10 ms geometry. Wave 4: big-endian input and computers obtained via deepcopy / pickle round trip / after an earlier compute_full.",
         note="numpy.fft trusted; get_truncated_response taken as given (C06); one generic signal per "
              "length plus zeros.",
         design="3/C02"),
@@ -172,7 +172,7 @@ CHECKS = {
              "(4 bank kinds x L 2..12 x S x pad x 3 styles x windows x energy/log/power x N in {0,1,L//2,L,"
              "L+1,2L+1,3L+S} x float32/float64), shapes incl. empty column count; wrappers (Preemphasize, "
              "PostProcessorWrapper, SI computer, Dither algebra and fixed-seed moments); scripted and traced "
-             "modules equal eager. Also non-contiguous input tensors, and for the wrappers: caller's tensor unchanged, second call equals the first.",
+             "modules equal eager. Also non-contiguous input tensors, and for the wrappers: caller's tensor unchanged, second call equals the first. Wave 4: parameter-free modules traced with an example of the other dtype.",
         note="Lengths L//2+1 <= N < L are outside the property's claim and the lattice; the torch "
              "constructor's documented refusal of empty filters (DFT size 2 Fbank) is skipped and counted.",
         design="3/C14"),
@@ -217,7 +217,7 @@ CHECKS = {
         text="Preemphasize: every N 0..6 x 5 dtypes x coefficients x in_place x layouts equals the explicit "
              "loop computed in float64 and cast back, input untouched unless in_place. Dither: seeds 0..31 "
              "reproducible, apply(x)-x independent of x (to 8 ulp of max|x|), exactly linear in coeff on a "
-             "zero signal, coeff 0 identity; fixed-seed mean/std inside 6 standard errors. Also signals around powers of two up to 2^17+1, all histories of depth 6 over {seed, apply} on one Dither object, every 3-operation sequence incl. apply-to-previous-result and coeff re-assignment with results held, and integer signals at the dtype rails.",
+             "zero signal, coeff 0 identity; fixed-seed mean/std inside 6 standard errors. Also signals around powers of two up to 2^17+1, all histories of depth 6 over {seed, apply} on one Dither object, every 3-operation sequence incl. apply-to-previous-result and coeff re-assignment with results held, and integer signals at the dtype rails. Wave 4: several live objects with different coefficients (every 3-operation sequence, closed-form oracle per object), non-native byte-order dtypes.",
         note="The distributional claim is checked as a deterministic fixed-seed computation (DESIGN 4).",
         design="3/C18"),
     "C19": dict(
@@ -226,7 +226,7 @@ CHECKS = {
                   "neighbourhoods of the Bark break-points + parameter lattice) with adjacency monotonicity",
         text="Round trips both ways to 1e-9, strict increase between every pair of adjacent grid points, "
              "continuity at the Bark break-points, agreement with independently re-implemented published "
-             "mel/Bark formulas, 1000 Hz = 1000 mel +- 0.02, OctaveScaling(low_hz<=0) rejected. Also histories: two instances with different parameters in one process and re-assignment of documented public attributes on a used object.",
+             "mel/Bark formulas, 1000 Hz = 1000 mel +- 0.02, OctaveScaling(low_hz<=0) rejected. Also histories: two instances with different parameters in one process and re-assignment of documented public attributes on a used object. Wave 4: the same number passed in both directions in every order on one and two instances (mel/Bark inverse closed forms in the oracle).",
         note="'All real frequencies' is represented by the grid; at the +-64 ulp neighbourhoods only "
              "'no drop beyond 8 ulp' is demanded (adjacent floats may map to one value).",
         design="3/C19"),
